@@ -1099,8 +1099,10 @@ class CanBeVaries(Element):
         if datatype == 'varies' and reference is None:
             reference = ('leaf', None, 'varies', None, None, -1)
 
+        # (a reference that already describes the given datatype, e.g. one coming from a message profile, is kept)
         if not Validator.is_strict(validation_level) and datatype not in (None, 'varies') \
-                and not is_base_datatype(datatype, version):
+                and not is_base_datatype(datatype, version) \
+                and not (reference is not None and reference[0] == 'sequence' and reference[2] == datatype):
             version = version or get_default_version()
             children_refs = load_reference(datatype, 'Datatypes_Structs', version)
             if name is not None:
